@@ -47,9 +47,9 @@ CHECKS = {
  'C14': ('exploration', 'Hypothesis-generated include trees on disk vs own splicer, across working directories (API and CLI)',
          'A generated program is cut into nested include files placed in same/sub/parent/sibling/-i directories; result must equal the spliced flat text regardless of cwd (incl. a cwd full of decoys).',
          'own splicer; precedence between adjacent and -i files is undocumented, either accepted', '4 C14'),
- 'C15': ('exploration', 'Hypothesis: valid generated program + one planted fault (110 texts, 10 classes) at a drawn position/include depth, API and CLI',
-         'Whenever the faulty program is refused the error must be AssemblerError carrying the real path and 1-based line of the planted line; CLI exit 1 with File/line and no traceback.',
-         'a fault the assembler does not refuse leaves the premise false and is counted', '4 C15'),
+ 'C15': ('exploration', 'Hypothesis: valid generated program + one planted fault (140 texts, 12 classes, operand mutations) at a drawn position/include depth, API and CLI; plus coverage-guided byte-level fuzzing of assemble() with atheris/libFuzzer',
+         'Whenever the faulty program is refused the error must be AssemblerError carrying the real path and 1-based line of the planted line; CLI exit 1 with File/line and no traceback. Fuzzed source texts must be assembled or refused with AssemblerError naming a line inside the text; any other exception is re-run in the repository interpreter, minimised and reported.',
+         'a fault the assembler does not refuse leaves the premise false and is counted; the fuzz part runs under python3-vt (atheris) and is skipped, with a note in the evidence, when that interpreter is missing; resource-limit errors from absurd alignments are excluded and counted', '4 C15'),
  'C16': ('exploration', 'Hypothesis RuleBasedStateMachine over call histories vs one fresh interpreter per (program, options) under varying PYTHONHASHSEED',
          'Histories of assemble() calls on a pool of programs (failing ones included, shared name space, caller dictionaries reused and scribbled) must agree call by call with fresh-process references; module tables and earlier results must stay untouched. Programs live in files in two source directories with shared and same-named includes; further rules reuse dictionaries filled by earlier calls, hand over a labels dictionary left over from another program, rewrite source files between calls and share one include_dirs list.',
          'fresh interpreter per (program, options) is the reference', '4 C16'),
@@ -94,7 +94,7 @@ def main():
                   'baseline_off_cmd': 'cd /repo && /venv/bin/python -m pytest -q -p no:cacheprovider',
                   'source_commits': [], 'add_only': True},
         'engines': [{'name': 'bbverif', 'path': 'check', 'serves_properties': sorted(CHECKS),
-                     'kind_free_text': 'Python: Hypothesis strategies over a program IR, exhaustive enumerators, independent RV32IMAC reference model, DFU device simulator'}],
+                     'kind_free_text': 'Python: Hypothesis strategies over a program IR, exhaustive enumerators, independent RV32IMAC reference model, DFU device simulator, atheris/libFuzzer byte-level fuzz target (tools/fuzz_text.py, C15)'}],
         'checks': checks,
         'not_applicable': na,
         'notes': 'exit 2 = harness error (never a violation). VERIF_SEED seeds every generator; VERIF_REPO points the checks at another tree (default /repo).',
